@@ -146,6 +146,23 @@ theorem C12_udp_flush_irrelevant (c : UdpCase) (σ : List Bool) :
   obtain ⟨taken, h1, _, h3⟩ := inv.enc.split
   exact ⟨taken, h1, h3, inv.enc.fin⟩
 
+/-- **The batch buffer never overflows**: between events the batch is at most half the buffer, so
+the next maximal record (2 + 65536 bytes) always fits — `batchBuf[batchPos+2:]` stays in range. -/
+theorem C12_udp_batch_fits (e : Enc) (ev : UEv) (h : e.batch.length ≤ halfFull) :
+    (encEv e ev).batch.length ≤ halfFull ∧ e.batch.length + (2 + readBuf_0) ≤ batchBufSize := by
+  have hc : halfFull = 131072 ∧ batchBufSize = 262144 ∧ readBuf_0 = 65536 := ⟨rfl, rfl, rfl⟩
+  refine ⟨?_, by omega⟩
+  cases ev with
+  | tick => simp [encEv, flush_batch]
+  | dgram d0 =>
+    simp only [encEv]
+    split
+    · exact h
+    · split <;> split
+      all_goals first
+        | (rw [flush_batch]; exact Nat.zero_le _)
+        | (rename_i hh; exact Nat.le_of_not_lt hh)
+
 /-! ## The two defects of the code as found (repaired in the worktree; kept as witnesses) -/
 
 /-- C12-a as found: the tunnel ends inside a record (`00 05 'a' 'b'`, then EOF) — the loop re-reads
